@@ -8,6 +8,7 @@ use std::cmp::Ordering;
 use vstd::multiset::*;
 use vstd::seq_lib::*;
 global size_of usize == 8;
+#[derive(Debug)]
 pub enum Error { CutThrough }
 pub trait El: Sized {
     spec fn key(&self) -> int;
